@@ -20,29 +20,16 @@ theorem appendLoopF_fst : ∀ (args : List Val) (h : Heap) (root cur : Option Na
       | none => simp only [appendLoopF, appendLoop, hA]; exact ih _ _ _ _ _ _ _
       | some e => simp only [appendLoopF, appendLoop, hA]; exact ih _ _ _ _ _ _ _
 
-theorem appendFx_fst : ∀ (args : List Val) (acc : Val) (h : Heap) (T : Toks) (f c : Nat),
+theorem appendFx_fst (args : List Val) (acc : Val) (h : Heap) (T : Toks) (f c : Nat) :
     ((appendFx h T f c acc args).1, (appendFx h T f c acc args).2.1, (appendFx h T f c acc args).2.2.1) =
       append h acc args := by
-  intro args
-  induction args with
-  | nil =>
-    intro acc h T f c
-    cases acc with
-    | nilIface => simp [appendFx, append]
-    | typedNil => simp only [appendFx, append]; exact appendLoopF_fst _ _ _ _ _ _ _ _
-    | foreignNil => simp only [appendFx, append, isNil]; exact appendLoopF_fst _ _ _ _ _ _ _ _
-    | ref id => simp only [appendFx, append]; split <;> exact appendLoopF_fst _ _ _ _ _ _ _ _
-    | plain u m => simp only [appendFx, append, isNil]; exact appendLoopF_fst _ _ _ _ _ _ _ _
-    | fwrap u m inner => simp only [appendFx, append, isNil]; exact appendLoopF_fst _ _ _ _ _ _ _ _
-  | cons a as ih =>
-    intro acc h T f c
-    cases acc with
-    | nilIface => simp only [appendFx, append]; exact ih a h T f c
-    | typedNil => simp only [appendFx, append]; exact appendLoopF_fst _ _ _ _ _ _ _ _
-    | foreignNil => simp only [appendFx, append, isNil]; exact appendLoopF_fst _ _ _ _ _ _ _ _
-    | ref id => simp only [appendFx, append]; split <;> exact appendLoopF_fst _ _ _ _ _ _ _ _
-    | plain u m => simp only [appendFx, append, isNil]; exact appendLoopF_fst _ _ _ _ _ _ _ _
-    | fwrap u m inner => simp only [appendFx, append, isNil]; exact appendLoopF_fst _ _ _ _ _ _ _ _
+  cases acc with
+  | nilIface => simp only [appendFx, append]; exact appendLoopF_fst _ _ _ _ _ _ _ _
+  | typedNil => simp only [appendFx, append]; exact appendLoopF_fst _ _ _ _ _ _ _ _
+  | foreignNil => simp only [appendFx, append, isNil]; exact appendLoopF_fst _ _ _ _ _ _ _ _
+  | ref id => simp only [appendFx, append]; split <;> exact appendLoopF_fst _ _ _ _ _ _ _ _
+  | plain u m => simp only [appendFx, append, isNil]; exact appendLoopF_fst _ _ _ _ _ _ _ _
+  | fwrap u m inner => simp only [appendFx, append, isNil]; exact appendLoopF_fst _ _ _ _ _ _ _ _
 
 /-- the heap of `appendF` is the heap of `append`, its value the root of `append` -/
 theorem appendF_heap (s : FHeap) (f : Nat) (acc : Val) (args : List Val) :
@@ -444,16 +431,18 @@ theorem append_stacks_ref (h : Heap) (T : Toks) (f c : Nat) (id : Nat) (args : L
   exact ⟨appendLoopF_root_some _ _ _ _ _ _ _ _,
     loop_someT args h id _ _ [] T f c hwf cc (fun i hi => (hm i hi).2) hne hT hargs⟩
 
-/-- **… and of `Append` onto nothing** (a nil `*Error`, a typed nil or an empty error as accumulator): exactly the stacks of
+/-- **… and of `Append` onto nothing** (a nil interface, a nil `*Error`, a typed nil or an empty error as accumulator): exactly the stacks of
     the arguments -/
 theorem append_stacks_none (h : Heap) (T : Toks) (f c : Nat) (acc : Val) (args : List Val) (hwf : WF h)
-    (hT : T.size = h.size) (hacc : acc = .typedNil ∨ acc = .foreignNil ∨ ∃ id, acc = .ref id ∧ isEmpty h id = true)
+    (hT : T.size = h.size)
+    (hacc : acc = .nilIface ∨ acc = .typedNil ∨ acc = .foreignNil ∨ ∃ id, acc = .ref id ∧ isEmpty h id = true)
     (hargs : ∀ id', Val.ref id' ∈ args → id' < h.size) :
     match (appendFx h T f c acc args).2.1 with
     | none => argsToks h T f c args = []
     | some r => chainToks (appendFx h T f c acc args).1 (appendFx h T f c acc args).2.2.2.1 r = argsToks h T f c args := by
   have hun : appendFx h T f c acc args = appendLoopF h none none [] T f c args := by
-    rcases hacc with rfl | rfl | ⟨id, rfl, he⟩
+    rcases hacc with rfl | rfl | rfl | ⟨id, rfl, he⟩
+    · simp [appendFx]
     · simp [appendFx]
     · simp [appendFx, isNil]
     · simp [appendFx, he]
@@ -475,28 +464,14 @@ theorem appendFx_toks : ∀ (args : List Val) (acc : Val) (h : Heap) (T : Toks) 
       (T.push (some { creator := f, site := c })) f (c + 1)
     simp only [Array.size_push] at g1 g2
     exact ⟨by omega, fun i hi => by rw [g2 i (by omega), tokOf_push_left T _ i hi]⟩
-  intro args
-  induction args with
-  | nil =>
-    intro acc h T f c
-    cases acc with
-    | nilIface =>
-      have hun : appendFx h T f c .nilIface [] = (h, none, [], T, c) := rfl
-      rw [hun]; exact ⟨Nat.le_refl _, fun _ _ => rfl⟩
-    | typedNil => simp only [appendFx]; exact appendLoopF_toks _ _ _ _ _ _ _ _
-    | foreignNil => simp only [appendFx, isNil]; exact appendLoopF_toks _ _ _ _ _ _ _ _
-    | ref id => simp only [appendFx]; split <;> exact appendLoopF_toks _ _ _ _ _ _ _ _
-    | plain u m => simp only [appendFx, isNil]; exact wrapper _ _ _ _ _ _
-    | fwrap u m inner => simp only [appendFx, isNil]; exact wrapper _ _ _ _ _ _
-  | cons a as ih =>
-    intro acc h T f c
-    cases acc with
-    | nilIface => simp only [appendFx]; exact ih a h T f c
-    | typedNil => simp only [appendFx]; exact appendLoopF_toks _ _ _ _ _ _ _ _
-    | foreignNil => simp only [appendFx, isNil]; exact appendLoopF_toks _ _ _ _ _ _ _ _
-    | ref id => simp only [appendFx]; split <;> exact appendLoopF_toks _ _ _ _ _ _ _ _
-    | plain u m => simp only [appendFx, isNil]; exact wrapper _ _ _ _ _ _
-    | fwrap u m inner => simp only [appendFx, isNil]; exact wrapper _ _ _ _ _ _
+  intro args acc h T f c
+  cases acc with
+  | nilIface => simp only [appendFx]; exact appendLoopF_toks _ _ _ _ _ _ _ _
+  | typedNil => simp only [appendFx]; exact appendLoopF_toks _ _ _ _ _ _ _ _
+  | foreignNil => simp only [appendFx, isNil]; exact appendLoopF_toks _ _ _ _ _ _ _ _
+  | ref id => simp only [appendFx]; split <;> exact appendLoopF_toks _ _ _ _ _ _ _ _
+  | plain u m => simp only [appendFx, isNil]; exact wrapper _ _ _ _ _ _
+  | fwrap u m inner => simp only [appendFx, isNil]; exact wrapper _ _ _ _ _ _
 
 /-! ### the message of an aggregate in terms of its items -/
 
